@@ -349,13 +349,37 @@ def literals(test: ast.expr, pol: bool = True) -> List[Tuple[str, bool]]:
         return out
     if isinstance(t, ast.BoolOp):
         # the unsplittable side: canonical text is the disjunction of the literal forms that make it `pol`
-        parts = sorted("&".join(f"{'' if p else '!'}{x}" for x, p in literals(v, pol)) for v in t.values)
-        return [(" | ".join(parts), True)]
+        parts = sorted(" ∧ ".join(f"{'' if p else '¬'}{x}" for x, p in literals(v, pol)) for v in t.values)
+        return [(" ∨ ".join(parts), True)]
     if isinstance(t, ast.Compare) and len(t.ops) == 1 and type(t.ops[0]) in _CANON_CMP:
         op, keep = _CANON_CMP[type(t.ops[0])]
         c = ast.Compare(left=t.left, ops=[op()], comparators=t.comparators)
         return [(ast.unparse(c), pol if keep else not pol)]
     return [(ast.unparse(t), pol)]
+
+
+def settle_disjunctions(conds: List[Tuple[str, bool]]) -> Optional[List[Tuple[str, bool]]]:
+    """Drop a disjunctive literal that the atomic literals of the path already decide; None when they refute it (infeasible path)."""
+    atoms = {(c, p) for c, p in conds if " ∨ " not in c}
+    out = []
+    for c, p in conds:
+        if " ∨ " not in c or not p:
+            out.append((c, p))
+            continue
+        alive = False
+        implied = False
+        for d in c.split(" ∨ "):
+            lits = [(x[1:], False) if x.startswith("¬") else (x, True) for x in d.split(" ∧ ")]
+            if all(l in atoms for l in lits):
+                implied = True
+            if not any((x, not q) in atoms for x, q in lits):
+                alive = True
+        if implied:
+            continue
+        if not alive:
+            return None
+        out.append((c, p))
+    return out
 
 
 class GPath:
@@ -379,7 +403,7 @@ class GPath:
         return any(ast.unparse(s) == text for s in self.stmts)
 
     def __repr__(self):
-        return f"<{' & '.join(('' if p else '!') + c for c, p in self.conds)} :: {len(self.stmts)} stmts -> {self.end}>"
+        return f"<{' & '.join(('' if p else '!') + '(' + c + ')' if ' ∨ ' in c else ('' if p else '!') + c for c, p in self.conds)} :: {len(self.stmts)} stmts -> {self.end}>"
 
 
 def gpaths(body_or_fn, limit: int = 4000) -> List[GPath]:
@@ -434,7 +458,13 @@ def gpaths(body_or_fn, limit: int = 4000) -> List[GPath]:
                 out = [GPath(r.conds, r.stmts, r.end if q.end == "fall" else q.end) for q in out for r in seq(st.finalbody, GPath(q.conds, q.stmts, "fall"))]
             return out
         return [GPath(p.conds, p.stmts + [st], "fall")]
-    return seq(body, GPath([], [], "fall"))
+    out = []
+    for q in seq(body, GPath([], [], "fall")):
+        c = settle_disjunctions(q.conds)
+        if c is not None:
+            q.conds = c
+            out.append(q)
+    return out
 
 
 def lit(text: str) -> List[Tuple[str, bool]]:
@@ -452,3 +482,307 @@ def always_under(fn, pred, cond: str) -> bool:
     ps = paths_through(fn, pred)
     want = lit(cond)
     return bool(ps) and all(all(w in q.conds for w in want) for q in ps)
+
+
+def const_bytes(e: ast.expr) -> Optional[bytes]:
+    """The bytes a closed expression denotes: b"..", bytes(n), bytes([..]), struct.pack(fmt, ints..), int.to_bytes, * and + of those."""
+    import struct as _struct
+    try:
+        if isinstance(e, ast.Constant):
+            return e.value if isinstance(e.value, bytes) else None
+        if isinstance(e, ast.BinOp) and isinstance(e.op, ast.Add):
+            a, b = const_bytes(e.left), const_bytes(e.right)
+            return a + b if a is not None and b is not None else None
+        if isinstance(e, ast.BinOp) and isinstance(e.op, ast.Mult):
+            for x, y in ((e.left, e.right), (e.right, e.left)):
+                a = const_bytes(x)
+                if a is not None and isinstance(y, ast.Constant) and isinstance(y.value, int) and 0 <= y.value <= 4096:
+                    return a * y.value
+            return None
+        if isinstance(e, ast.Call) and not e.keywords:
+            f = ast.unparse(e.func)
+            if f in ("bytes", "bytearray") and len(e.args) == 1:
+                a = e.args[0]
+                if isinstance(a, ast.Constant) and isinstance(a.value, int) and 0 <= a.value <= 4096:
+                    return bytes(a.value)
+                if isinstance(a, (ast.List, ast.Tuple)) and all(isinstance(x, ast.Constant) and isinstance(x.value, int) for x in a.elts):
+                    return bytes(x.value for x in a.elts)
+                return const_bytes(a)
+            if f in ("struct.pack", "pack") and e.args and isinstance(e.args[0], ast.Constant) and isinstance(e.args[0].value, str) \
+                    and all(isinstance(x, ast.Constant) and isinstance(x.value, (int, bytes)) for x in e.args[1:]):
+                return _struct.pack(e.args[0].value, *[x.value for x in e.args[1:]])
+    except Exception:  # noqa: BLE001  (malformed format / out of range: not a constant we understand)
+        return None
+    return None
+
+
+def reduction(fn) -> Optional[dict]:
+    """A function that only folds a sequence: `acc = i; for v in it: [if f:] acc += e; return acc` and `return sum(e for v in it [if f])`
+    (also b"".join / "".join for bytes and str accumulators) have the same summary {init, elem, iter, filt}, with the loop variable
+    renamed to `_v`."""
+    body = [s for s in body_of(fn) if not isinstance(s, ast.Pass)]
+
+    def ren(e, var):
+        class R(ast.NodeTransformer):
+            def visit_Name(self, n):  # noqa: N802
+                return ast.copy_location(ast.Name(id="_v", ctx=n.ctx), n) if n.id == var else n
+        return ast.unparse(R().visit(clone(e)))
+    if len(body) == 1 and isinstance(body[0], ast.Return) and isinstance(body[0].value, ast.Call):
+        c = body[0].value
+        f = ast.unparse(c.func)
+        if c.args and isinstance(c.args[0], (ast.GeneratorExp, ast.ListComp)) and len(c.args[0].generators) == 1 and isinstance(c.args[0].generators[0].target, ast.Name):
+            g = c.args[0].generators[0]
+            var = g.target.id
+            init = None
+            if f == "sum":
+                init = ast.unparse(c.args[1]) if len(c.args) > 1 else "0"
+            elif f in ("b''.join", "bytes().join"):
+                init = "b''"
+            elif f == "''.join":
+                init = "''"
+            if init is not None:
+                return {"init": init, "elem": ren(c.args[0].elt, var), "iter": ast.unparse(g.iter), "filt": sorted(ren(x, var) for x in g.ifs)}
+    if len(body) == 3 and isinstance(body[0], ast.Assign) and len(body[0].targets) == 1 and isinstance(body[0].targets[0], ast.Name) \
+            and isinstance(body[1], ast.For) and not body[1].orelse and isinstance(body[1].target, ast.Name) \
+            and isinstance(body[2], ast.Return) and isinstance(body[2].value, ast.Name) and body[2].value.id == body[0].targets[0].id:
+        acc, var = body[0].targets[0].id, body[1].target.id
+        inner, filt = body[1].body, []
+        while len(inner) == 1 and isinstance(inner[0], ast.If) and not inner[0].orelse:
+            filt.append(ren(inner[0].test, var))
+            inner = inner[0].body
+        if len(inner) == 1 and isinstance(inner[0], ast.AugAssign) and isinstance(inner[0].op, ast.Add) and isinstance(inner[0].target, ast.Name) and inner[0].target.id == acc:
+            init = ast.unparse(body[0].value)
+            init = {"bytes()": "b''", "str()": "''"}.get(init, init)
+            return {"init": init, "elem": ren(inner[0].value, var), "iter": ast.unparse(body[1].iter), "filt": sorted(filt)}
+    return None
+
+
+# ------------------------------------------------------------------ symbolic paths: guarded paths with locals expressed in the inputs
+_MAX_EXPR = 600
+
+
+def _size(e: ast.AST) -> int:
+    return sum(1 for _ in ast.walk(e))
+
+
+class _EnvSubst(ast.NodeTransformer):
+    def __init__(self, env):
+        self.env = env
+
+    def visit_Name(self, n):  # noqa: N802
+        if isinstance(n.ctx, ast.Load) and n.id in self.env:
+            v = self.env[n.id]
+            return clone(v) if not (isinstance(v, ast.Name) and v.id == n.id) else n
+        return n
+
+    def _scoped(self, n):
+        # names bound by a comprehension / lambda shadow the environment
+        bound = {x.id for g in getattr(n, "generators", []) for x in ast.walk(g.target) if isinstance(x, ast.Name)}
+        if isinstance(n, ast.Lambda):
+            bound = {a.arg for a in n.args.args + n.args.kwonlyargs}
+        saved = {k: self.env[k] for k in bound if k in self.env}
+        for k in saved:
+            del self.env[k]
+        self.generic_visit(n)
+        self.env.update(saved)
+        return n
+
+    visit_ListComp = visit_SetComp = visit_DictComp = visit_GeneratorExp = visit_Lambda = _scoped  # noqa: N815
+
+
+def _sub(e, env):
+    if e is None:
+        return None
+    return _EnvSubst(env).visit(clone(e))
+
+
+def _first_ifexp(st: ast.AST) -> Optional[ast.IfExp]:
+    todo = [st]
+    while todo:
+        n = todo.pop(0)
+        if isinstance(n, ast.IfExp):
+            return n
+        if isinstance(n, (ast.Lambda, ast.ListComp, ast.SetComp, ast.DictComp, ast.GeneratorExp)):
+            continue
+        todo += list(ast.iter_child_nodes(n))
+    return None
+
+
+def _replace_node(root: ast.AST, old: ast.AST, new: ast.AST) -> None:
+    for node in ast.walk(root):
+        for f, v in ast.iter_fields(node):
+            if v is old:
+                setattr(node, f, new)
+                return
+            if isinstance(v, list):
+                for k, x in enumerate(v):
+                    if x is old:
+                        v[k] = new
+                        return
+
+
+class SPath(GPath):
+    """A guarded path whose literals and statements are expressed in the function's inputs: single assignments to locals are
+    substituted forward along the path (a local that is mutated in place, assigned in a loop or bound by with/except stays a name),
+    conditional expressions are split into paths.  `sstmts` are the substituted clones of `stmts`."""
+    __slots__ = ("env", "sstmts")
+
+    def __init__(self, conds, stmts, end, env, sstmts):
+        super().__init__(conds, stmts, end)
+        self.env, self.sstmts = env, sstmts
+
+    @property
+    def value(self) -> Optional[ast.expr]:
+        """what a returning path returns / a raising path raises, in the inputs"""
+        s = self.sstmts[-1] if self.sstmts else None
+        if isinstance(s, ast.Return):
+            return s.value
+        if isinstance(s, ast.Raise):
+            return s.exc
+        return None
+
+    @property
+    def vtext(self) -> str:
+        v = self.value
+        return ast.unparse(v) if v is not None else ""
+
+    def calls(self, name: Optional[str] = None) -> List[ast.Call]:
+        return [c for s in self.sstmts for c in ast.walk(s) if isinstance(c, ast.Call) and (name is None or call_name(c) == name)]
+
+    def sees(self, text: str) -> bool:
+        return any(ast.unparse(s) == text for s in self.sstmts)
+
+
+def spaths(body_or_fn, limit: int = 4000) -> List[SPath]:
+    body = body_of(body_or_fn) if isinstance(body_or_fn, (ast.FunctionDef, ast.AsyncFunctionDef)) else list(body_or_fn)
+
+    def feasible(conds):
+        s = set(conds)
+        return not any((c, not p) in s for c, p in s)
+
+    def stored(nodes) -> Set[str]:
+        return {n.id for r in nodes for n in ast.walk(r) if isinstance(n, ast.Name) and isinstance(n.ctx, (ast.Store, ast.Del))}
+
+    def opaque(env, names):
+        env = dict(env)
+        for k in names:
+            env[k] = ast.Name(id=k, ctx=ast.Load())
+        # a value that mentions a re-bound name no longer denotes what it did: freeze those too
+        return env
+
+    def fork(p: SPath, test: ast.expr, pol: bool) -> Optional[SPath]:
+        t = _sub(test, p.env)
+        c2 = p.conds + [l for l in literals(t, pol) if l not in p.conds]
+        return SPath(c2, p.stmts, "fall", p.env, p.sstmts) if feasible(c2) else None
+
+    def seq(stmts, pre: SPath) -> List[SPath]:
+        acc = [pre]
+        for st in stmts:
+            new: List[SPath] = []
+            for p in acc:
+                if p.end != "fall":
+                    new.append(p)
+                    continue
+                new += one(st, p)
+                if len(new) > limit:
+                    raise OverflowError("too many paths")
+            acc = new
+        return acc
+
+    def simple(st, p: SPath, depth: int = 0) -> List[SPath]:
+        ie = _first_ifexp(st) if depth < 4 else None
+        if ie is not None:
+            out = []
+            for pol, arm in ((True, ie.body), (False, ie.orelse)):
+                q = fork(p, ie.test, pol)
+                if q is None:
+                    continue
+                st2 = clone(st)
+                # locate the same IfExp in the clone by position in a parallel walk
+                ie2 = _first_ifexp(st2)
+                if st2 is ie2:
+                    continue
+                _replace_node(st2, ie2, ie2.body if pol else ie2.orelse)
+                out += simple(st2, q, depth + 1)
+            return out
+        sst = _sub(st, p.env)
+        env = p.env
+        if isinstance(st, ast.Assign) and len(st.targets) == 1 and isinstance(st.targets[0], ast.Name):
+            v = sst.value
+            env = dict(env)
+            env[st.targets[0].id] = v if _size(v) <= _MAX_EXPR else ast.Name(id=st.targets[0].id, ctx=ast.Load())
+        elif isinstance(st, ast.Assign) and len(st.targets) == 1 and isinstance(st.targets[0], ast.Tuple) and isinstance(sst.value, ast.Tuple) \
+                and len(st.targets[0].elts) == len(sst.value.elts) and all(isinstance(t, ast.Name) for t in st.targets[0].elts):
+            env = dict(env)
+            for t, v in zip(st.targets[0].elts, sst.value.elts):
+                env[t.id] = v
+        elif isinstance(st, ast.AugAssign) and isinstance(st.target, ast.Name):
+            env = dict(env)
+            cur = env.get(st.target.id, ast.Name(id=st.target.id, ctx=ast.Load()))
+            v = ast.BinOp(left=clone(cur), op=st.op, right=sst.value)
+            env[st.target.id] = v if _size(v) <= _MAX_EXPR else ast.Name(id=st.target.id, ctx=ast.Load())
+        else:
+            # in-place mutation of a local (item/attribute store, a method called on it as a statement) or any other binding
+            mut = set()
+            for tg in (st.targets if isinstance(st, ast.Assign) else [st.target] if isinstance(st, (ast.AugAssign, ast.AnnAssign)) else []):
+                b = tg
+                while isinstance(b, (ast.Subscript, ast.Attribute, ast.Starred)):
+                    b = b.value
+                if isinstance(b, ast.Name) and not isinstance(tg, ast.Name):
+                    mut.add(b.id)
+            if isinstance(st, ast.Expr) and isinstance(st.value, ast.Call) and isinstance(st.value.func, ast.Attribute):
+                b = st.value.func.value
+                while isinstance(b, (ast.Subscript, ast.Attribute)):
+                    b = b.value
+                if isinstance(b, ast.Name):
+                    mut.add(b.id)
+            mut |= stored([st])
+            mut = {m for m in mut if m in env or m in stored([st])}
+            if mut:
+                # the statement is recorded with the receiver kept by name, so that the mutation stays visible
+                keep = {k: v for k, v in p.env.items() if k not in mut}
+                sst = _sub(st, keep)
+                env = opaque(env, mut)
+        end = {"Return": "return", "Raise": "raise", "Break": "break", "Continue": "continue"}.get(type(st).__name__, "fall")
+        return [SPath(p.conds, p.stmts + [st], end, env, p.sstmts + [sst])]
+
+    def one(st, p: SPath) -> List[SPath]:
+        if isinstance(st, ast.If):
+            out = []
+            for pol, arm in ((True, st.body), (False, st.orelse)):
+                q = fork(p, st.test, pol)
+                if q is not None:
+                    out += seq(arm, q)
+            return out
+        if isinstance(st, (ast.For, ast.While, ast.AsyncFor)):
+            names = stored([st])
+            out = [SPath(p.conds, p.stmts, "fall", p.env, p.sstmts)]
+            inner = SPath(p.conds, p.stmts, "fall", opaque(p.env, names), p.sstmts)
+            for q in seq(st.body, inner):
+                out.append(SPath(q.conds, q.stmts, "fall" if q.end in ("fall", "break", "continue") else q.end, opaque(q.env, names) if q.end in ("fall", "break", "continue") else q.env, q.sstmts))
+            if st.orelse:
+                out = [r for q in out for r in (seq(st.orelse, q) if q.end == "fall" else [q])]
+            return out
+        if isinstance(st, (ast.With, ast.AsyncWith)):
+            names = stored([i.optional_vars for i in st.items if i.optional_vars is not None])
+            return seq(st.body, SPath(p.conds, p.stmts, "fall", opaque(p.env, names), p.sstmts))
+        if isinstance(st, ast.Try):
+            out = []
+            for q in seq(st.body, p):
+                out += seq(st.orelse, q) if (q.end == "fall" and st.orelse) else [q]
+            names = stored(st.body) | {h.name for h in st.handlers if h.name}
+            for h in st.handlers:
+                out += seq(h.body, SPath(p.conds, p.stmts, "fall", opaque(p.env, names), p.sstmts))
+            if st.finalbody:
+                out = [SPath(r.conds, r.stmts, r.end if q.end == "fall" else q.end, r.env, r.sstmts) for q in out for r in seq(st.finalbody, SPath(q.conds, q.stmts, "fall", q.env, q.sstmts))]
+            return out
+        if isinstance(st, (ast.FunctionDef, ast.AsyncFunctionDef, ast.ClassDef)):
+            return [SPath(p.conds, p.stmts, "fall", opaque(p.env, {st.name}), p.sstmts)]
+        return simple(st, p)
+    out = []
+    for q in seq(body, SPath([], [], "fall", {}, [])):
+        c = settle_disjunctions(q.conds)
+        if c is not None:
+            q.conds = c
+            out.append(q)
+    return out
